@@ -138,6 +138,9 @@ func absWalk(fn *ssa.Function, env *absEnv, counterStruct string, maxSteps int) 
 					}
 				}
 			case *ssa.Store:
+				if _, f, _, ok := fieldRef(x.Addr); ok && f == "lastAccessNano" {
+					tr.Events = append(tr.Events, "lastAccess<-"+condExpr(x.Val))
+				}
 				if _, f, _, ok := fieldRef(x.Addr); ok && f == "expires" {
 					// which TTL the entry gets on this path
 					v := x.Val
@@ -536,6 +539,18 @@ func c12(c *Ctx) {
 				wantTTL = ".CacheNegativeTTL"
 			}
 			r.Check("handleInstanceInfo:"+cs.name+":ttl", strings.HasSuffix(ttl, wantTTL), hi.Pos(), "case "+cs.name+": entry expires after "+ttl+" (required "+wantTTL+")")
+			// a refresh is not a use: an existing entry keeps its access time, a new entry starts at "now"
+			acc := ""
+			for _, ev := range tr.Events {
+				if strings.HasPrefix(ev, "lastAccess<-") {
+					acc = strings.TrimPrefix(ev, "lastAccess<-")
+				}
+			}
+			if cs.cur == absNonNil {
+				r.Check("handleInstanceInfo:"+cs.name+":access-time", strings.Contains(acc, ".lastAccess(") || strings.Contains(acc, ".lastAccessNano"), hi.Pos(), "case "+cs.name+": the stored entry's access time is "+acc+" (required: inherited from the existing entry)")
+			} else {
+				r.Check("handleInstanceInfo:"+cs.name+":access-time", strings.Contains(acc, "UnixNano"), hi.Pos(), "case "+cs.name+": the stored entry's access time is "+acc+" (required: now)")
+			}
 			// never forget, as a case check too
 			if cs.cur == absNonNil && cs.curIns == absNonNil {
 				r.Check("handleInstanceInfo:"+cs.name+":keeps-instance", newIns == absNonNil, hi.Pos(), "a resolved source keeps serving an instance whatever the refresh returned")
